@@ -16,7 +16,10 @@ pub fn run(cases: Vec<(String, Value)>, max_fail: usize, opts: &HashMap<String, 
     let step = Duration::from_millis(opts.get("bound_ms").and_then(|s| s.parse().ok()).unwrap_or(20000));
     run_cases(cases, max_fail, move |_tag, case| {
         let mut out = Outcome::default();
-        let p = parse_out(&case["out"]);
+        let mut p = parse_out(&case["out"]);
+        // literals from the pool: non-ASCII characters in front of the culprit on the same line (UTF-16 columns)
+        distinct_literals(&mut p);
+        let p = p;
         let fault = case["fault"].as_str().unwrap_or("none").to_string();
         out.nontrivial = p.toks.len() >= 9;
         let mut live = Live::spawn(&exe, None);
@@ -26,7 +29,7 @@ pub fn run(cases: Vec<(String, Value)>, max_fail: usize, opts: &HashMap<String, 
         }
         live.notify("initialized", json!({}));
         let mut id = 1;
-        for (li, name) in ["canon", "crlf", "cmtall"].iter().enumerate() {
+        for (li, name) in ["canon", "crlf", "cr", "cmtall", "cmtuni"].iter().enumerate() {
             let r = render(&p, &layout(&p, name));
             let uri = format!("file:///d{li}.spl");
             live.notes.clear();
@@ -49,6 +52,22 @@ pub fn run(cases: Vec<(String, Value)>, max_fail: usize, opts: &HashMap<String, 
             }
             if fault != "none" && ds.is_empty() {
                 out.failures.push(Failure::new("rule-not-reported", &fault, json!({"layout": name, "text": r.text})));
+            }
+            // the published ranges are the byte ranges of the analysis under the LSP position rules (UTF-16 columns,
+            // CR / LF / CRLF line ends): same multiset of (range, message) as the in-process analysis converted by the
+            // independent position model
+            let t = r.text.clone();
+            if let Ok(errs) = guard(std::panic::AssertUnwindSafe(move || spl_frontend::ErrorContainer::errors(&spl_frontend::AnalyzedSource::new(t)))) {
+                let conv = |o: usize| { let q = lspmodel::pos_of(&r.text, o.min(r.text.len())); json!({"line": q.line, "character": q.col}) };
+                let mut want: Vec<String> = errs.iter().map(|e| json!({"range": {"start": conv(e.0.start), "end": conv(e.0.end)}, "message": e.1.to_string()}).to_string()).collect();
+                let mut got: Vec<String> = ds.iter().map(|d| json!({"range": {"start": {"line": d["range"]["start"]["line"], "character": d["range"]["start"]["character"]},
+                                                                               "end": {"line": d["range"]["end"]["line"], "character": d["range"]["end"]["character"]}},
+                                                                     "message": d["message"]}).to_string()).collect();
+                want.sort();
+                got.sort();
+                if want != got {
+                    out.failures.push(Failure::new("published-differs-from-analysis", &fault, json!({"layout": name, "text": r.text, "expected": want, "got": got})));
+                }
             }
             let end = lspmodel::end_pos(&r.text);
             for d in &ds {
